@@ -94,6 +94,8 @@ type NCRun struct {
 	Caps    []string
 	SID     uint64
 	ResumeT time.Duration
+	// CloseBegin is the fake time Channel.Close was first entered (-1: never)
+	CloseBegin time.Duration
 }
 
 func (sc *NCSession) readDelay() time.Duration {
@@ -131,7 +133,8 @@ func (sc *NCSession) fitTimeouts() {
 
 // Deadline bounds the whole workload in fake time.
 func (sc *NCSession) Deadline() time.Duration {
-	d := 3*sc.connTimeout() + 120*time.Second
+	// short: the RPC reply poller runs every 5us, so waiting out a long fake deadline is expensive
+	d := 3*sc.connTimeout() + 3*time.Second
 	for i := range sc.Ops {
 		d += sc.effTimeout(&sc.Ops[i]) + Micro(sc.Ops[i].IdleUS)
 	}
@@ -285,6 +288,8 @@ func (nr *NCRun) workload(env *Env) {
 				err = d.Close()
 			case "idle":
 				time.Sleep(Micro(op.IdleUS))
+			case "inject":
+				nr.Tr.Inject([]simnet.Seg{{B: []byte(op.A + ncDelim10), Msg: 1 << 20}})
 			case "lose:eof":
 				nr.Tr.LoseNow("eof")
 			case "lose:readerr":
